@@ -4,7 +4,7 @@
     what the implementation returned, the conclusion below — the statement of C01 for that
     input — holds over the reals. *)
 From Coq Require Import QArith Qreals Reals List.
-From D3 Require Import Base.Ops Base.Vec Base.RVec Spec.Convex Checker.Shapes Checker.Narrow Model.Simplex Model.JoltLoop Proofs.JoltLoop Proofs.JoltStall Proofs.JoltStallEx.
+From D3 Require Import Base.Ops Base.Vec Base.RVec Spec.Convex Checker.Shapes Checker.Narrow Model.Simplex Model.JoltLoop Proofs.JoltLoop Proofs.JoltStall Proofs.JoltStallEx Proofs.JoltAffine.
 Import ListNotations.
 
 (** the support-value bound every separation certificate rests on *)
@@ -115,6 +115,34 @@ Theorem C01_exact_on_stall_partial : forall (A B : set3) (p q : V3R) (s : @dstat
   forall a b, A a -> B b -> (norm (search_direction s) <= norm (vsub a b))%R.
 Proof. exact distance_step_stall_exact_partial. Qed.
 
+(** FEASIBILITY of the returned closest points: the barycentric weights of
+    [calculate_closest_points] sum to one in every arm (one to three rows: always; four rows: when the
+    tetrahedron is not flat - the code divides by its volume), so a and b are the SAME affine
+    combination of the support points of A resp. B and a - b is that combination of the rows of Y -
+    partial: that the weights are non-negative (then a in A, b in B for convex colliders and a - b in
+    the hull of Y) is the carrier property of the simplex solver, C18's subject, a hypothesis here *)
+Theorem C01_closest_points_affine : forall (A B : set3) Y P Q a b,
+  rows A B Y P Q -> calculate_closest_points Y P Q = Some (a, b) -> tetra_regular Y ->
+  exists ws, closest_weights Y = Some ws /\ length ws = length Y /\ Convex.sum ws = 1%R /\
+             a = comb ws P /\ b = comb ws Q /\ vsub a b = comb ws Y.
+Proof. exact closest_points_affine. Qed.
+
+Theorem C01_closest_points_feasible_partial : forall (A B : set3) Y P Q a b,
+  convex A -> convex B ->
+  rows A B Y P Q -> calculate_closest_points Y P Q = Some (a, b) -> tetra_regular Y ->
+  (forall ws, closest_weights Y = Some ws -> Forall (fun w => (0 <= w)%R) ws) ->
+  A a /\ B b /\ conv_hull Y (vsub a b).
+Proof. exact closest_points_feasible_partial. Qed.
+
+Example C01_closest_points_feasible_nonvacuous :
+  convex fxA /\ convex fxB /\ rows fxA fxB fxY fxP fxQ /\
+  (exists a b, calculate_closest_points fxY fxP fxQ = Some (a, b)) /\ tetra_regular fxY /\
+  (forall ws, closest_weights fxY = Some ws -> Forall (fun w => (0 <= w)%R) ws).
+Proof.
+  destruct closest_points_feasible_nonvacuous as (H1 & H2 & H3 & H4 & H5 & H6).
+  refine (conj H1 (conj H2 (conj H3 (conj _ (conj H5 H6))))). eexists; eexists; exact H4.
+Qed.
+
 (** the hypotheses of [C01_exact_on_stall_partial] are satisfiable TOGETHER: the state of the loop
     model after its first iteration on A = {(2,0,0)}, B = {(0,0,0)} meets all eight of them (the second
     support point repeats the first, the solver reports no improvement), and the reported distance is 2 *)
@@ -150,3 +178,6 @@ Print Assumptions C01_stall_lower_bound.
 Print Assumptions C01_progress_possible.
 Print Assumptions C01_exact_on_stall_partial.
 Print Assumptions C01_exact_on_stall_nonvacuous.
+Print Assumptions C01_closest_points_affine.
+Print Assumptions C01_closest_points_feasible_partial.
+Print Assumptions C01_closest_points_feasible_nonvacuous.
